@@ -4,10 +4,14 @@ Proved: Sphere (outside) = Dipole with moment J·V/μ₀; TriangularMesh / Tetra
 construction the sum of their triangle sheets plus the inside term (wrapper `wrapH`, C02); a
 straight current segment may be subdivided at any point of its carrier line, and reversing it
 negates the field (both from the Biot–Savart integral representation, Lemmas/SegmentBS.lean).
+A Cuboid cut by axis-parallel planes (one cut, a list of cuts along one axis, a full n×m×k grid) is the
+sum of its parts with the same polarization — `cuboid_split_x/y/z`, `cuboid_split_x_list`,
+`cuboid_grid_partition` for the kernel `cuboidB`, `cuboid_split_wrapper_x/y/z` and
+`cuboid_grid_partition_wrapper` for all four fields of `bhjmCuboid` (via the surface-charge integral of C01, Lemmas/CuboidSplit.lean).
 /- FULL: Cuboid = its mesh = its tetrahedra; Cylinder = full-angle segment = sum of segments;
-   partition additivity of Cuboid/Cylinder; Polyline → Circle.  These equate different closed
-   forms (each equivalent to C01 for both sides) and are not shown by theorem; the whole-vs-parts
-   oracle checks them on the real code. -/
+   partition additivity of Cylinder / CylinderSegment / Sphere / meshes; Polyline → Circle.  These equate
+   different closed forms (each equivalent to C01 for both sides) and are not shown by theorem; the
+   whole-vs-parts oracle checks them on the real code. -/
 -/
 import MagpyVerif.Lemmas.KernCylSeg
 import MagpyVerif.Lemmas.KernCylSegScale
@@ -16,6 +20,7 @@ import MagpyVerif.Lemmas.KernelLiterals
 import MagpyVerif.Lemmas.KernAlgebra
 import MagpyVerif.Lemmas.SegmentBS
 import MagpyVerif.Lemmas.TrimeshSum
+import MagpyVerif.Lemmas.CuboidSplit
 namespace MagpyVerif.C13
 open MagpyVerif MagpyVerif.Kern
 
@@ -220,5 +225,188 @@ theorem cylseg_full_turn_acts_on_amplitudes (μ : ℝ) (S : SegSpecial) (r ri rb
     @Hr_zk_case235 ℝ (realNumX μ S) r ri rb (pbj + 2 * Real.pi) θ zb =
       @Hr_zk_case235 ℝ (realNumX μ S.shiftPi) r ri rb pbj θ zb :=
   ⟨Hr_zk_case234_add_two_pi μ S r pbj θ zb, Hr_zk_case235_add_two_pi μ S r ri rb pbj θ zb⟩
+
+end MagpyVerif.C13
+
+/-! ### Cuboid: the whole is the sum of the Cuboids it is cut into (Lemmas/CuboidSplit.lean)
+
+The kernel `cuboidB` (port of `magnet_cuboid_Bfield`) and the wrapper `bhjmCuboid` are centred at the origin; a part
+with centre `c` contributes its value at the shifted observer `p − c` (what `getB` does with `position=c`, no rotation).
+Route: C01 (`cuboid_is_coulomb_integral`) turns each of the three bodies into `1/(4π) Σ_faces ± J·n ∫∫ (p−q)/|p−q|³ dA`
+plus `J` inside; every face integral is evaluated (`faceX_x … faceZ_z`) as a second difference over the corners of the
+face; the four faces parallel to the cut axis are additive in the cut range, the two internal faces at the cut carry
+opposite charges over the same rectangle and cancel, each outer face belongs to one part, and off the cut plane the
+observer is inside the whole iff it is inside exactly one part. -/
+namespace MagpyVerif.C13
+open MagpyVerif MagpyVerif.Kern MagpyVerif.CuboidCoulomb MagpyVerif.CuboidSplit
+
+/-- C13 (Cuboid, cut ⟂ x): side lengths `dim > 0`, cut plane `x = t` strictly between the faces; left part of size
+`(t + dim.x/2, dim.y, dim.z)` centred at `((t − dim.x/2)/2, 0, 0)`, right part of size `(dim.x/2 − t, dim.y, dim.z)` centred
+at `((t + dim.x/2)/2, 0, 0)`, same polarization; every observer off the seven planes `x = ±dim.x/2`, `x = t`,
+`|y| = dim.y/2`, `|z| = dim.z/2` — outside, inside either part, any octant. -/
+theorem cuboid_split_x (dim pol p : V3 ℝ) (t : ℝ) (hdx : 0 < dim.x) (hdy : 0 < dim.y) (hdz : 0 < dim.z)
+    (ht1 : -(dim.x / 2) < t) (ht2 : t < dim.x / 2)
+    (hx : |p.x| ≠ dim.x / 2) (hxt : p.x ≠ t) (hy : |p.y| ≠ dim.y / 2) (hz : |p.z| ≠ dim.z / 2) :
+    cuboidB dim pol p =
+      cuboidB ⟨t + dim.x / 2, dim.y, dim.z⟩ pol (p - ⟨(t - dim.x / 2) / 2, 0, 0⟩) +
+      cuboidB ⟨dim.x / 2 - t, dim.y, dim.z⟩ pol (p - ⟨(t + dim.x / 2) / 2, 0, 0⟩) :=
+  CuboidSplit.cuboid_split_x dim pol p t hdx hdy hdz ht1 ht2 hx hxt hy hz
+
+/-- C13 (Cuboid, cut ⟂ y) -/
+theorem cuboid_split_y (dim pol p : V3 ℝ) (t : ℝ) (hdx : 0 < dim.x) (hdy : 0 < dim.y) (hdz : 0 < dim.z)
+    (ht1 : -(dim.y / 2) < t) (ht2 : t < dim.y / 2)
+    (hx : |p.x| ≠ dim.x / 2) (hy : |p.y| ≠ dim.y / 2) (hyt : p.y ≠ t) (hz : |p.z| ≠ dim.z / 2) :
+    cuboidB dim pol p =
+      cuboidB ⟨dim.x, t + dim.y / 2, dim.z⟩ pol (p - ⟨0, (t - dim.y / 2) / 2, 0⟩) +
+      cuboidB ⟨dim.x, dim.y / 2 - t, dim.z⟩ pol (p - ⟨0, (t + dim.y / 2) / 2, 0⟩) :=
+  CuboidSplit.cuboid_split_y dim pol p t hdx hdy hdz ht1 ht2 hx hy hyt hz
+
+/-- C13 (Cuboid, cut ⟂ z) -/
+theorem cuboid_split_z (dim pol p : V3 ℝ) (t : ℝ) (hdx : 0 < dim.x) (hdy : 0 < dim.y) (hdz : 0 < dim.z)
+    (ht1 : -(dim.z / 2) < t) (ht2 : t < dim.z / 2)
+    (hx : |p.x| ≠ dim.x / 2) (hy : |p.y| ≠ dim.y / 2) (hz : |p.z| ≠ dim.z / 2) (hzt : p.z ≠ t) :
+    cuboidB dim pol p =
+      cuboidB ⟨dim.x, dim.y, t + dim.z / 2⟩ pol (p - ⟨0, 0, (t - dim.z / 2) / 2⟩) +
+      cuboidB ⟨dim.x, dim.y, dim.z / 2 - t⟩ pol (p - ⟨0, 0, (t + dim.z / 2) / 2⟩) :=
+  CuboidSplit.cuboid_split_z dim pol p t hdx hdy hdz ht1 ht2 hx hy hz hzt
+
+-- non-vacuity: a 2×2×2 cuboid cut at x = 1/2 (parts 3/2 and 1/2 wide); an observer outside in another octant, one inside
+-- the left part, one inside the right part
+example : cuboidB (⟨2, 2, 2⟩ : V3 ℝ) ⟨0, 0, 1⟩ ⟨-3, 1 / 2, 5⟩ =
+    cuboidB ⟨1 / 2 + 2 / 2, 2, 2⟩ ⟨0, 0, 1⟩ (⟨-3, 1 / 2, 5⟩ - ⟨(1 / 2 - 2 / 2) / 2, 0, 0⟩) +
+    cuboidB ⟨2 / 2 - 1 / 2, 2, 2⟩ ⟨0, 0, 1⟩ (⟨-3, 1 / 2, 5⟩ - ⟨(1 / 2 + 2 / 2) / 2, 0, 0⟩) := by
+  apply cuboid_split_x (⟨2, 2, 2⟩ : V3 ℝ) ⟨0, 0, 1⟩ ⟨-3, 1 / 2, 5⟩ (1 / 2) <;> norm_num [abs_of_pos, abs_of_neg]
+example : cuboidB (⟨2, 2, 2⟩ : V3 ℝ) ⟨0, 0, 1⟩ ⟨-1 / 4, 1 / 3, -1 / 4⟩ =
+    cuboidB ⟨1 / 2 + 2 / 2, 2, 2⟩ ⟨0, 0, 1⟩ (⟨-1 / 4, 1 / 3, -1 / 4⟩ - ⟨(1 / 2 - 2 / 2) / 2, 0, 0⟩) +
+    cuboidB ⟨2 / 2 - 1 / 2, 2, 2⟩ ⟨0, 0, 1⟩ (⟨-1 / 4, 1 / 3, -1 / 4⟩ - ⟨(1 / 2 + 2 / 2) / 2, 0, 0⟩) := by
+  apply cuboid_split_x (⟨2, 2, 2⟩ : V3 ℝ) ⟨0, 0, 1⟩ ⟨-1 / 4, 1 / 3, -1 / 4⟩ (1 / 2) <;> norm_num [abs_of_pos, abs_of_neg]
+example : cuboidB (⟨2, 2, 2⟩ : V3 ℝ) ⟨0, 0, 1⟩ ⟨3 / 4, 1 / 3, -1 / 4⟩ =
+    cuboidB ⟨1 / 2 + 2 / 2, 2, 2⟩ ⟨0, 0, 1⟩ (⟨3 / 4, 1 / 3, -1 / 4⟩ - ⟨(1 / 2 - 2 / 2) / 2, 0, 0⟩) +
+    cuboidB ⟨2 / 2 - 1 / 2, 2, 2⟩ ⟨0, 0, 1⟩ (⟨3 / 4, 1 / 3, -1 / 4⟩ - ⟨(1 / 2 + 2 / 2) / 2, 0, 0⟩) := by
+  apply cuboid_split_x (⟨2, 2, 2⟩ : V3 ℝ) ⟨0, 0, 1⟩ ⟨3 / 4, 1 / 3, -1 / 4⟩ (1 / 2) <;> norm_num [abs_of_pos, abs_of_neg]
+
+/-- C13 (Cuboid wrapper, cut ⟂ x): the same for `BHJM_magnet_cuboid` — masks, special cases, field selection — and for
+**all four fields** B, H, J, M, every polarization (zero included), for observers outside the relative-1e-15 surface shells
+of the three bodies (whole, left part, right part; the y- and z-shells are common to them).  Inside a shell the code
+switches to its surface / edge special cases, whose values are conventions of the code, not of the partition. -/
+theorem cuboid_split_wrapper_x (f : Field) (dim pol p : V3 ℝ) (t : ℝ) (hdy : 0 < dim.y) (hdz : 0 < dim.z)
+    (ht1 : -(dim.x / 2) < t) (ht2 : t < dim.x / 2)
+    (hx : rtol * (dim.x / 2) ≤ |(|p.x| - dim.x / 2)|) (hy : rtol * (dim.y / 2) ≤ |(|p.y| - dim.y / 2)|)
+    (hz : rtol * (dim.z / 2) ≤ |(|p.z| - dim.z / 2)|)
+    (hL : rtol * ((t + dim.x / 2) / 2) ≤ |(|p.x - (t - dim.x / 2) / 2| - (t + dim.x / 2) / 2)|)
+    (hR : rtol * ((dim.x / 2 - t) / 2) ≤ |(|p.x - (t + dim.x / 2) / 2| - (dim.x / 2 - t) / 2)|) :
+    bhjmCuboid f dim pol p =
+      bhjmCuboid f ⟨t + dim.x / 2, dim.y, dim.z⟩ pol (p - ⟨(t - dim.x / 2) / 2, 0, 0⟩) +
+      bhjmCuboid f ⟨dim.x / 2 - t, dim.y, dim.z⟩ pol (p - ⟨(t + dim.x / 2) / 2, 0, 0⟩) :=
+  CuboidSplit.cuboid_split_wrapper_x dim pol p t hdy hdz f ht1 ht2 hx hy hz hL hR
+
+/-- C13 (Cuboid wrapper, cut ⟂ y) -/
+theorem cuboid_split_wrapper_y (f : Field) (dim pol p : V3 ℝ) (t : ℝ) (hdx : 0 < dim.x) (hdz : 0 < dim.z)
+    (ht1 : -(dim.y / 2) < t) (ht2 : t < dim.y / 2)
+    (hx : rtol * (dim.x / 2) ≤ |(|p.x| - dim.x / 2)|) (hy : rtol * (dim.y / 2) ≤ |(|p.y| - dim.y / 2)|)
+    (hz : rtol * (dim.z / 2) ≤ |(|p.z| - dim.z / 2)|)
+    (hL : rtol * ((t + dim.y / 2) / 2) ≤ |(|p.y - (t - dim.y / 2) / 2| - (t + dim.y / 2) / 2)|)
+    (hR : rtol * ((dim.y / 2 - t) / 2) ≤ |(|p.y - (t + dim.y / 2) / 2| - (dim.y / 2 - t) / 2)|) :
+    bhjmCuboid f dim pol p =
+      bhjmCuboid f ⟨dim.x, t + dim.y / 2, dim.z⟩ pol (p - ⟨0, (t - dim.y / 2) / 2, 0⟩) +
+      bhjmCuboid f ⟨dim.x, dim.y / 2 - t, dim.z⟩ pol (p - ⟨0, (t + dim.y / 2) / 2, 0⟩) :=
+  CuboidSplit.cuboid_split_wrapper_y dim pol p t hdx hdz f ht1 ht2 hx hy hz hL hR
+
+/-- C13 (Cuboid wrapper, cut ⟂ z) -/
+theorem cuboid_split_wrapper_z (f : Field) (dim pol p : V3 ℝ) (t : ℝ) (hdx : 0 < dim.x) (hdy : 0 < dim.y)
+    (ht1 : -(dim.z / 2) < t) (ht2 : t < dim.z / 2)
+    (hx : rtol * (dim.x / 2) ≤ |(|p.x| - dim.x / 2)|) (hy : rtol * (dim.y / 2) ≤ |(|p.y| - dim.y / 2)|)
+    (hz : rtol * (dim.z / 2) ≤ |(|p.z| - dim.z / 2)|)
+    (hL : rtol * ((t + dim.z / 2) / 2) ≤ |(|p.z - (t - dim.z / 2) / 2| - (t + dim.z / 2) / 2)|)
+    (hR : rtol * ((dim.z / 2 - t) / 2) ≤ |(|p.z - (t + dim.z / 2) / 2| - (dim.z / 2 - t) / 2)|) :
+    bhjmCuboid f dim pol p =
+      bhjmCuboid f ⟨dim.x, dim.y, t + dim.z / 2⟩ pol (p - ⟨0, 0, (t - dim.z / 2) / 2⟩) +
+      bhjmCuboid f ⟨dim.x, dim.y, dim.z / 2 - t⟩ pol (p - ⟨0, 0, (t + dim.z / 2) / 2⟩) :=
+  CuboidSplit.cuboid_split_wrapper_z dim pol p t hdx hdy f ht1 ht2 hx hy hz hL hR
+
+-- non-vacuity: the 2×2×2 cuboid cut at x = 1/2, H at an observer inside the right part — all seven hypotheses hold
+example : bhjmCuboid .H (⟨2, 2, 2⟩ : V3 ℝ) ⟨0, 0, 1⟩ ⟨3 / 4, 1 / 3, -1 / 4⟩ =
+    bhjmCuboid .H ⟨1 / 2 + 2 / 2, 2, 2⟩ ⟨0, 0, 1⟩ (⟨3 / 4, 1 / 3, -1 / 4⟩ - ⟨(1 / 2 - 2 / 2) / 2, 0, 0⟩) +
+    bhjmCuboid .H ⟨2 / 2 - 1 / 2, 2, 2⟩ ⟨0, 0, 1⟩ (⟨3 / 4, 1 / 3, -1 / 4⟩ - ⟨(1 / 2 + 2 / 2) / 2, 0, 0⟩) := by
+  apply cuboid_split_wrapper_x .H (⟨2, 2, 2⟩ : V3 ℝ) ⟨0, 0, 1⟩ ⟨3 / 4, 1 / 3, -1 / 4⟩ (1 / 2) <;>
+    (try unfold rtol) <;> norm_num [abs_of_pos, abs_of_neg]
+
+-- the shell hypotheses `hL`, `hR` are necessary: for an observer ON the cut plane (inside the whole) both parts count it as
+-- inside (the wrapper's inside mask is the closed body), so the parts' J adds up to 2·J — the real code does the same
+-- (getJ: [0.3, −0.2, 1] for the whole, [0.6, −0.4, 2] for the two parts; H and M likewise, B differs by the tangential J)
+example : bhjmCuboid .J (⟨2, 2, 2⟩ : V3 ℝ) ⟨0, 0, 1⟩ ⟨1 / 2, 1 / 3, -1 / 4⟩ ≠
+    bhjmCuboid .J ⟨1 / 2 + 2 / 2, 2, 2⟩ ⟨0, 0, 1⟩ (⟨1 / 2, 1 / 3, -1 / 4⟩ - ⟨(1 / 2 - 2 / 2) / 2, 0, 0⟩) +
+    bhjmCuboid .J ⟨2 / 2 - 1 / 2, 2, 2⟩ ⟨0, 0, 1⟩ (⟨1 / 2, 1 / 3, -1 / 4⟩ - ⟨(1 / 2 + 2 / 2) / 2, 0, 0⟩) := by
+  intro h
+  have hz := congrArg V3.z h
+  simp [bhjmCuboid, wrapB, cuboidMasks, n, zero3] at hz
+  norm_num [abs_of_pos, abs_of_neg] at hz
+
+/-- C13 (Cuboid, many cuts ⟂ x): cut positions `cuts` strictly increasing and strictly between the faces (the list
+`−dim.x/2 :: cuts ++ [dim.x/2]` is strictly increasing; `cuts` may be empty); the slabs between consecutive planes,
+each a Cuboid of width `b − a` evaluated at the observer shifted by its centre `((a + b)/2, 0, 0)`, sum to the whole
+(`chainSum f t0 [t1, …, tn] = f t0 t1 + f t1 t2 + … + f t(n−1) tn`). -/
+theorem cuboid_split_x_list (dim pol p : V3 ℝ) (cuts : List ℝ) (hdy : 0 < dim.y) (hdz : 0 < dim.z)
+    (hp : (-(dim.x / 2) :: (cuts ++ [dim.x / 2])).Pairwise (· < ·))
+    (hxo : ∀ t ∈ -(dim.x / 2) :: (cuts ++ [dim.x / 2]), p.x ≠ t) (hy : |p.y| ≠ dim.y / 2) (hz : |p.z| ≠ dim.z / 2) :
+    chainSum (fun a b => cuboidB ⟨b - a, dim.y, dim.z⟩ pol (p - ⟨(a + b) / 2, 0, 0⟩)) (-(dim.x / 2))
+      (cuts ++ [dim.x / 2]) = cuboidB dim pol p :=
+  CuboidSplit.cuboid_split_x_list dim pol p cuts hdy hdz hp hxo hy hz
+
+/-- C13 (Cuboid, grid partition): interior cut positions `xs`, `ys`, `zs` per axis (each list strictly increasing and
+strictly between the two faces; any may be empty); the `(|xs|+1)(|ys|+1)(|zs|+1)` cells — Cuboids of side lengths
+`(xb − xa, yb − ya, zb − za)` with the same polarization, evaluated at the observer shifted by the cell centre — sum to
+the whole Cuboid, for every observer in none of the grid planes (faces included): outside, or inside any cell. -/
+theorem cuboid_grid_partition (dim pol p : V3 ℝ) (xs ys zs : List ℝ)
+    (hxp : (-(dim.x / 2) :: (xs ++ [dim.x / 2])).Pairwise (· < ·))
+    (hyp : (-(dim.y / 2) :: (ys ++ [dim.y / 2])).Pairwise (· < ·))
+    (hzp : (-(dim.z / 2) :: (zs ++ [dim.z / 2])).Pairwise (· < ·))
+    (hxo : ∀ t ∈ -(dim.x / 2) :: (xs ++ [dim.x / 2]), p.x ≠ t)
+    (hyo : ∀ t ∈ -(dim.y / 2) :: (ys ++ [dim.y / 2]), p.y ≠ t)
+    (hzo : ∀ t ∈ -(dim.z / 2) :: (zs ++ [dim.z / 2]), p.z ≠ t) :
+    chainSum (fun xa xb => chainSum (fun ya yb => chainSum (fun za zb =>
+        cuboidB ⟨xb - xa, yb - ya, zb - za⟩ pol (p - ⟨(xa + xb) / 2, (ya + yb) / 2, (za + zb) / 2⟩))
+        (-(dim.z / 2)) (zs ++ [dim.z / 2])) (-(dim.y / 2)) (ys ++ [dim.y / 2])) (-(dim.x / 2)) (xs ++ [dim.x / 2]) =
+      cuboidB dim pol p :=
+  CuboidSplit.cuboid_grid_partition dim pol p xs ys zs hxp hyp hzp hxo hyo hzo
+
+-- non-vacuity: what `chainSum` is (three slabs: two cuts), and a 3 × 2 × 1 grid of the 2×2×2 cuboid (cuts x = −1/2, 1/4;
+-- y = 0; none in z) with an observer inside the cell [1/4, 1] × [0, 1] × [−1, 1]
+example (f : ℝ → ℝ → V3 ℝ) (a b c d : ℝ) : chainSum f a [b, c, d] = f a b + (f b c + (f c d + ⟨0, 0, 0⟩)) := rfl
+example :
+    chainSum (fun xa xb => chainSum (fun ya yb => chainSum (fun za zb =>
+        cuboidB ⟨xb - xa, yb - ya, zb - za⟩ ⟨0, 0, 1⟩
+          ((⟨1 / 2, 1 / 3, -1 / 4⟩ : V3 ℝ) - ⟨(xa + xb) / 2, (ya + yb) / 2, (za + zb) / 2⟩))
+        (-(2 / 2)) ([] ++ [2 / 2])) (-(2 / 2)) ([0] ++ [2 / 2])) (-(2 / 2)) ([-1 / 2, 1 / 4] ++ [2 / 2]) =
+      cuboidB (⟨2, 2, 2⟩ : V3 ℝ) ⟨0, 0, 1⟩ ⟨1 / 2, 1 / 3, -1 / 4⟩ := by
+  apply cuboid_grid_partition (⟨2, 2, 2⟩ : V3 ℝ) ⟨0, 0, 1⟩ ⟨1 / 2, 1 / 3, -1 / 4⟩ [-1 / 2, 1 / 4] [0] [] <;>
+    simp <;> norm_num
+
+/-- C13 (Cuboid wrapper, grid partition, all four fields): the cells of any axis-parallel grid sum to the whole for
+`BHJM_magnet_cuboid` itself — B, H, J, M, every polarization — when the observer keeps, along each axis, the distance
+`1e-15 · dim_i/2` (the whole body's shell half-width, which bounds the shell of every cell and every merged slab) from
+every grid plane of that axis, faces included. -/
+theorem cuboid_grid_partition_wrapper (f : Field) (dim pol p : V3 ℝ) (xs ys zs : List ℝ)
+    (hxp : (-(dim.x / 2) :: (xs ++ [dim.x / 2])).Pairwise (· < ·))
+    (hyp : (-(dim.y / 2) :: (ys ++ [dim.y / 2])).Pairwise (· < ·))
+    (hzp : (-(dim.z / 2) :: (zs ++ [dim.z / 2])).Pairwise (· < ·))
+    (hxo : ∀ t ∈ -(dim.x / 2) :: (xs ++ [dim.x / 2]), rtol * (dim.x / 2) ≤ |p.x - t|)
+    (hyo : ∀ t ∈ -(dim.y / 2) :: (ys ++ [dim.y / 2]), rtol * (dim.y / 2) ≤ |p.y - t|)
+    (hzo : ∀ t ∈ -(dim.z / 2) :: (zs ++ [dim.z / 2]), rtol * (dim.z / 2) ≤ |p.z - t|) :
+    chainSum (fun xa xb => chainSum (fun ya yb => chainSum (fun za zb =>
+        bhjmCuboid f ⟨xb - xa, yb - ya, zb - za⟩ pol (p - ⟨(xa + xb) / 2, (ya + yb) / 2, (za + zb) / 2⟩))
+        (-(dim.z / 2)) (zs ++ [dim.z / 2])) (-(dim.y / 2)) (ys ++ [dim.y / 2])) (-(dim.x / 2)) (xs ++ [dim.x / 2]) =
+      bhjmCuboid f dim pol p :=
+  CuboidSplit.cuboid_grid_partition_wrapper f dim pol p xs ys zs hxp hyp hzp hxo hyo hzo
+
+-- non-vacuity: the same 3 × 2 × 1 grid and inside observer, field H
+example :
+    chainSum (fun xa xb => chainSum (fun ya yb => chainSum (fun za zb =>
+        bhjmCuboid .H ⟨xb - xa, yb - ya, zb - za⟩ ⟨0, 0, 1⟩
+          ((⟨1 / 2, 1 / 3, -1 / 4⟩ : V3 ℝ) - ⟨(xa + xb) / 2, (ya + yb) / 2, (za + zb) / 2⟩))
+        (-(2 / 2)) ([] ++ [2 / 2])) (-(2 / 2)) ([0] ++ [2 / 2])) (-(2 / 2)) ([-1 / 2, 1 / 4] ++ [2 / 2]) =
+      bhjmCuboid .H (⟨2, 2, 2⟩ : V3 ℝ) ⟨0, 0, 1⟩ ⟨1 / 2, 1 / 3, -1 / 4⟩ := by
+  apply cuboid_grid_partition_wrapper .H (⟨2, 2, 2⟩ : V3 ℝ) ⟨0, 0, 1⟩ ⟨1 / 2, 1 / 3, -1 / 4⟩ [-1 / 2, 1 / 4] [0] [] <;>
+    simp [rtol] <;> norm_num [abs_of_pos, abs_of_neg]
 
 end MagpyVerif.C13
